@@ -257,6 +257,13 @@ func (l *lexer) run() {
 	close(l.tokens)
 }
 
+// drain consumes the remaining tokens so that the lexing goroutine, which
+// blocks sending each token, can run to completion and exit.
+func (l *lexer) drain() {
+	for range l.tokens {
+	}
+}
+
 // emit passes an token back to the client.
 func (l *lexer) emit(t TokenType) {
 	l.tokens <- token{t, l.start, l.current()}
